@@ -96,6 +96,8 @@ def ref_bump(t, parts):
     for unit, n in parts:
         if unit == 'tdh':
             t = t + datetime.timedelta(hours=n)
+        elif unit == 'tdms':
+            t = t + datetime.timedelta(milliseconds=n)
         else:
             t = c09.expected(t, unit, [n])[0][0]
             if t is None:
@@ -152,6 +154,10 @@ def bumps_for(group, month_ok):
             bs.append(_str_bump('%dd' % n, eqkey=n))
         for s in ('1d12h', '-1d-12h', '+12H', '-18h'):
             bs.append(_str_bump(s, kind='compound' if 'd' in s else 'alt' if s == '+12H' else None))
+    elif group == 'millis':
+        # timedelta bumps with a fractional number of seconds, over spans that are exact multiples of them
+        for ms_ in (100, -100, 200, -200, 400, -400, 50, -50):
+            bs.append(Bump('timedelta(milliseconds=%d)' % ms_, 'tdms', datetime.timedelta(milliseconds=ms_), [('tdms', ms_)]))
     else:
         raise ValueError(group)
     if not month_ok:
@@ -171,6 +177,8 @@ def endpoints(group, M, t0, d):
             for off in (-1, 0, 1):
                 res.append(('%dy%+dd' % (y, off), e + DAY * off))
         return res
+    if group == 'millis':
+        return [('%dms' % (100 * m), t0 + td(milliseconds=100 * m) * d) for m in range(M + 1)] + [('%dms' % (100 * m + 30), t0 + td(milliseconds=100 * m + 30) * d) for m in range(0, M + 1, 3)]
     unit, half = {'hours': (td(hours=1), td(minutes=30)), 'tdh': (td(hours=1), td(minutes=30)),
                   'minutes': (td(minutes=1), td(seconds=30)), 'seconds': (td(seconds=1), td(microseconds=500000))}[group]
     res = []
@@ -386,6 +394,20 @@ def sweep(out, rec, state, drange, cal, t0, d, group, ends, bumps):
                     else:
                         kind = 'wrong-elements'
                     rec(kind, '%s: expected %s observed %s' % (what, _fmt(exp), _fmt(r)), **s)
+        # ---- the returned list is the caller's: emptying it must not show in the next call over the same end points
+        if group == 'days' and ei in (2, 5):
+            for b in bumps:
+                if b.name in ('int:1', 'int:-1', 'int:2', "'1b'", "'-1b'", "'1d'", 'timedelta(days=1)') and b.name in outcomes and outcomes[b.name][0] == 'ok' and isinstance(outcomes[b.name][1], list):
+                    out.sub()
+                    first = outcomes[b.name][1]
+                    keep = list(first)
+                    del first[:]                         # the caller empties its list in place
+                    st2, r2 = state['watch'].run(lambda: drange(t0, t1, b.arg))
+                    out.call()
+                    outcomes[b.name] = (outcomes[b.name][0], keep)          # the spelling comparison below uses what the first call returned
+                    if st2 != 'ok' or r2 != keep or r2 is first:
+                        rec('result-shared-between-calls', 'drange(%s, %s, %s): after the caller emptied the first result, a second call returned %s; expected %s' % (
+                            t0.isoformat(' '), t1.isoformat(' '), b.name, _fmt(r2) if st2 == 'ok' else st2, _fmt(keep)), bump=b.kind)
         # ---- int n == timedelta(days=n) == 'nd'
         groups = {}
         for b in bumps:
@@ -453,7 +475,7 @@ def suites(tier, seed):
     span = 21 if quick else 70
     mh, mtd, mn, ms = (12, 48, 12, 12) if quick else (40, 120, 40, 40)
     g_days = [['days', span], ['long', 0]]
-    g_intra = [['hours', mh], ['tdh', mtd], ['minutes', mn], ['seconds', ms]]
+    g_intra = [['hours', mh], ['tdh', mtd], ['minutes', mn], ['seconds', ms], ['millis', 12]]
     nd = len(_days())
     nb_days = len(bumps_for('days', True))
     return [
